@@ -70,7 +70,7 @@ def match(prop, failure):
     return None
 
 
-BINARY = ('C01', 'C16', 'C15', 'C18', 'C13', 'C19', 'C07')
+BINARY = ('C01', 'C16', 'C15', 'C18', 'C13', 'C19', 'C07', 'C03', 'C04', 'C05', 'C06', 'C08')
 KM_STRINGS = ('NumericString', 'PrintableString', 'VisibleString', 'IA5String', 'BMPString',
               'UniversalString')
 
@@ -368,5 +368,34 @@ def _c08_zero_width(ctx):
         # same loop shape: a known-multiplier string whose permitted alphabet has one character
         # needs zero bits per character
         if ctx.codec != 'oer' and b.kind in KM_STRINGS and n.r.alpha is not None and len(n.r.alpha.chars()) == 1:
+            return True
+    return False
+
+
+@finding(('C03', 'C04'), 'implicit-tag-on-tagged-choice')
+def _implicit_on_tagged_choice(ctx):
+    # codecs/compiler.py pre_process_tags_type: a tag without keyword is made EXPLICIT whenever the
+    # referenced type *resolves* to CHOICE, also when that CHOICE definition carries its own tag
+    # ('A ::= [30] CHOICE {...}', 'rec [2] A'); X.680 31.2.7 makes it explicit only for an UNTAGGED choice
+    for n in ctx.tnodes():
+        if n.r.base.kind != 'CHOICE':
+            continue
+        if n.member is not None:
+            layers, r = asn.member_tags(ctx.spec, n.member, n.parent.r.mod)
+        else:
+            layers, r = asn.effective_tags(ctx.spec, n.ty, n.mod)
+        if len(layers) >= 2 and not layers[-2][2]:
+            return True
+    return False
+
+
+@finding(('C03', 'C04'), 'root2-before-additions')
+def _root2_before_additions(ctx):
+    # ber.py compile_members / MembersType.encode_content: root components written after the second
+    # extension marker are merged into the root list and encoded BEFORE the extension additions;
+    # X.690 8.9.2 orders SEQUENCE components as they appear in the definition
+    for n in ctx.tnodes():
+        b = n.r.base
+        if b.kind == 'SEQUENCE' and b.root2 and b.ext:
             return True
     return False
